@@ -259,7 +259,7 @@ class Hist(Scenario):
         if self.profile.get("unstaged_replacement_hunks", True):
             self.g("commit", "-q", "--allow-empty", "-m", "partial")
         else:
-            # finding D75 (see op_destructive / mv): commit exactly the chosen paths, not whatever else happens to be staged
+            # finding D82 (see op_destructive / mv): commit exactly the chosen paths, not whatever else happens to be staged
             self.g("commit", "-q", "--allow-empty", "-m", "partial", "--", *chosen)
         self.ops.append("commit:files")
 
@@ -315,9 +315,9 @@ class Hist(Scenario):
             head = self.head()
             hl = (self.show_lines(head, f) if head else None) or []
             hk = set(key(l) for l in hl)
-            # finding D75: unstaged hunks that REMOVE lines of the commit (a staged line reworded next to left-out lines merges into one
-            # replacement hunk; an unstaged deletion) shift the note. While it is open the file is staged as a whole, so that the
-            # rewording is the only difference between index and work tree (a pure 1:1 hunk, which is handled).
+            # finding D82: inside an unstaged hunk that REPLACES lines the commit adds, work-tree lines are paired with committed lines by
+            # position (a staged line reworded next to left-out lines merges into one such hunk). While it is open the file is staged as
+            # a whole, so that the rewording is the only difference between index and work tree (a pure 1:1 hunk).
             if rng.random() < 0.5 and self.profile.get("unstaged_replacement_hunks", True):
                 if not self.stage_hunk_subset(f):
                     self.g("add", "--", f)
@@ -1109,7 +1109,7 @@ class Hist(Scenario):
                     if f in self.styles:
                         self.styles[nf] = self.styles[f]
                     if not self.profile.get("unstaged_replacement_hunks", True):
-                        # finding D75, second face: a STAGED rename makes the next commit add the whole file; an agent's later,
+                        # finding D82: a STAGED rename makes the next commit add the whole file; an agent's later,
                         # unstaged replacement of some of its lines then shifts that commit's note. While it is open the rename is
                         # committed on its own.
                         self.g("commit", "-q", "-m", "rename only")
